@@ -345,6 +345,11 @@ def InRange (c : Chain) : Op → Prop
   | .truncate n => n ≤ (abs c).length
   | .advance n => n ≤ (abs c).length
   | .clear => True
+  | .copyToBytes n => n ≤ (abs c).length
+  | .copyToSlice n => n ≤ (abs c).length
+  | .getU8 => 1 ≤ (abs c).length
+  | .getU16 => 2 ≤ (abs c).length
+  | .getU32 => 4 ≤ (abs c).length
 
 instance (c : Chain) (op : Op) : Decidable (InRange c op) := by
   cases op <;> unfold InRange <;> infer_instance
@@ -354,6 +359,8 @@ inductive RefOut where
   | unit
   | bytes (b : Option Bytes)
   | part (b : Bytes)
+  | copied (b : Bytes)
+  | num (n : Nat)
 deriving DecidableEq, Repr
 
 def outAbs : Out → RefOut
@@ -361,6 +368,10 @@ def outAbs : Out → RefOut
   | .popped s => .bytes (s.map Seg.bytes)
   | .removed s => .bytes (some s.bytes)
   | .part c => .part (abs c)
+  | .copied b => .copied b
+  | .u8 v => .num v.toNat
+  | .u16 v => .num v.toNat
+  | .u32 v => .num v.toNat
 
 /-- One operation on the plain byte vector `v` run alongside the chain `c`; `c` is consulted only to
     turn the segment indices of `insert` / `pop` / `remove` into byte ranges. -/
@@ -377,6 +388,11 @@ def refStep (c : Chain) (v : Bytes) : Op → Bytes × RefOut
   | .truncate n => (Spec.Vec.truncate v n, .unit)
   | .advance n => (Spec.Vec.advance v n, .unit)
   | .clear => (Spec.Vec.clear v, .unit)
+  | .copyToBytes n => ((Spec.Vec.copyOut v n).1, .copied (Spec.Vec.copyOut v n).2)
+  | .copyToSlice n => ((Spec.Vec.copyOut v n).1, .copied (Spec.Vec.copyOut v n).2)
+  | .getU8 => ((Spec.Vec.getBe v 1).1, .num (Spec.Vec.getBe v 1).2)
+  | .getU16 => ((Spec.Vec.getBe v 2).1, .num (Spec.Vec.getBe v 2).2)
+  | .getU32 => ((Spec.Vec.getBe v 4).1, .num (Spec.Vec.getBe v 4).2)
 
 /-- The plain byte vector subjected to the same operations as the chain (until the chain panics). -/
 def refRun (c : Chain) (v : Bytes) : List Op → Bytes × List RefOut
@@ -411,6 +427,10 @@ def retagOut (f : Tag → Tag) : Out → Out
   | .popped s => .popped (s.map (retagSeg f))
   | .removed s => .removed (retagSeg f s)
   | .part c => .part (retagChain f c)
+  | .copied b => .copied b
+  | .u8 v => .u8 v
+  | .u16 v => .u16 v
+  | .u32 v => .u32 v
 
 def retagRes (f : Tag → Tag) : Res Chain Out → Res Chain Out
   | .error p => .error ⟨retagChain f p.left⟩
